@@ -41,13 +41,20 @@ pub struct Case {
 
 pub struct C18;
 
-const POOL: &[&str] = &["a", "A", "1", "９", "。", "、", "！", "?", ".", ",", "「", "」", " ", "京", "都", "東", "一", "十", "百", "万", "あ", "い", "ア", "イ", "ー", "ッ", "ｱ", "ﾞ", "㍿", "𠮷", "😀", "é", "(か)", "ーー", "3.14", "1,000", "\u{301}"];
+const POOL: &[&str] = &["a", "A", "1", "９", "。", "、", "！", "?", ".", ",", "「", "」", " ", "京", "都", "東", "一", "十", "百", "万", "あ", "い", "ア", "イ", "ー", "ッ", "ｱ", "ﾞ", "㍿", "𠮷", "😀", "é", "(か)", "ーー", "3.14", "1,000", "\u{301}", "京(かな)", "東京（とう）都", "漢（かん）字（じ）", "XAG-3F", "abc12", "Tokyo"];
 
 pub fn stream(keys: &[String], seed: u64, thread: usize, n: usize) -> Vec<String> {
     let mut x = splitmix(seed ^ ((thread as u64 + 1) << 40));
     let mut v = Vec::with_capacity(n);
-    for _ in 0..n {
+    for k in 0..n {
         x = splitmix(x);
+        if k == 0 {
+            // the first text of every thread touches every bundled plugin (regex word, bracketed reading,
+            // numeral with separator, katakana run, mark run, expander): first uses race with each other
+            let tail = if keys.is_empty() { String::new() } else { keys[(x >> 8) as usize % keys.len()].clone() };
+            v.push(format!("XAG-3F{}京(かな)1,000アイウー東京（とう）都ーー㍿{}", ["a", "Tokyo", "abc12", ""][thread % 4], tail));
+            continue;
+        }
         let len = 1 + (x % 14) as usize;
         let mut s = String::new();
         for _ in 0..len {
@@ -388,7 +395,11 @@ impl Property for C18 {
         rep.class("round");
         rep
     }
-    fn extra(&self, tier: Tier, seed: u64, _ctx: &mut Ctx, stats: &mut Stats) -> Vec<(Value, Failure)> {
+    fn extra(&self, tier: Tier, seed: u64, ctx: &mut Ctx, stats: &mut Stats) -> Vec<(Value, Failure)> {
+        let first = self.extra_first_use(tier, seed, ctx, stats);
+        if !first.is_empty() {
+            return first;
+        }
         // Python threads sharing one Dictionary
         let root = verif_root();
         let result = root.join("work").join("c18-python-result.json");
@@ -422,6 +433,26 @@ impl Property for C18 {
             (Ok(st), None) => fails.push((Value::Null, Failure { clause: "python:interpreter-crash".into(), detail: format!("the interpreter exited with {:?} without a result", st) })),
             (Err(e), _) => fails.push((Value::Null, Failure { clause: "harness-python".into(), detail: format!("{}", e) })),
         }
+        fails
+    }
+}
+
+impl C18 {
+    fn extra_first_use(&self, tier: Tier, seed: u64, ctx: &mut Ctx, stats: &mut Stats) -> Vec<(Value, Failure)> {
+        // first-use races: many short rounds on the world that carries every bundled plugin, one process at a time
+        // (so that its threads really run together), each thread starting with a text that touches every plugin
+        let mut fails = Vec::new();
+        let rounds = tier.pick(64u64, 400u64);
+        for r in 0..rounds {
+            let case = Case { world: 1, threads: 4 + (r % 13) as u8, seed: splitmix(seed ^ (0xF1 + r)), texts: 2, stagger: (r % 4) as u8 };
+            let rep = self.check(&case, ctx);
+            stats.record(&format!("first-use:{}", r), rep.failure.is_none(), Some("first-use round"));
+            if let Some(f) = rep.failure {
+                fails.push((serde_json::to_value(&case).unwrap(), f));
+                break;
+            }
+        }
+        stats.extra.insert("first_use_rounds".into(), json!(rounds));
         fails
     }
 }
